@@ -211,3 +211,84 @@ theorem covariance_eq_centred (bs : List (List Vec)) (i j : Nat) :
   rfl
 
 end SharkVerif.Trainers
+
+namespace SharkVerif.Trainers
+
+/-! ### directions that are orthonormal or zero (what the repaired small-sample branch returns) -/
+
+/-- the first `m` columns of `V` are pairwise orthogonal and each is a unit vector (`e a = 1`)
+or the zero vector (`e a = 0`) -/
+def OrthoOrZero (V : Nat → Nat → Rat) (n m : Nat) (e : Nat → Rat) : Prop :=
+  (∀ a, a < m → e a = 0 ∨ e a = 1) ∧
+  ∀ a, a < m → ∀ b, b < m → rsum n (fun j => V j a * V j b) = if a = b then e a else 0
+
+theorem zero_column (V : Nat → Nat → Rat) (n m : Nat) (e : Nat → Rat) (h : OrthoOrZero V n m e)
+    (a : Nat) (ha : a < m) (h0 : e a = 0) : ∀ j, j < n → V j a = 0 := by
+  have := h.2 a ha a ha
+  simp only [if_true, h0] at this
+  intro j hj
+  exact mul_self_eq_zero.mp (rsum_eq_zero_of_nonneg (f := fun j => V j a * V j a) (fun j _ => mul_self_nonneg _) this j hj)
+
+theorem enc_dec_general (V : Nat → Nat → Rat) (mu : Nat → Rat) (n m : Nat) (e : Nat → Rat)
+    (h : OrthoOrZero V n m e) (z : Nat → Rat) (i : Nat) (hi : i < m) :
+    pcaEnc V mu n (pcaDec V mu m z) i = e i * z i := by
+  rw [pcaEnc_eq]
+  unfold pcaDec
+  have : ∀ j, V j i * (rsum m (fun k => V j k * z k) + mu j - mu j) = rsum m (fun k => V j i * V j k * z k) := by
+    intro j; rw [add_sub_cancel_right, ← rsum_mul_left]; exact rsum_congr (fun k _ => by ring)
+  rw [rsum_congr (fun j _ => this j), rsum_rsum_comm]
+  have h2 : ∀ k, k < m → rsum n (fun j => V j i * V j k * z k) = (if i = k then e k * z k else 0) := by
+    intro k hk
+    rw [rsum_mul_right, h.2 i hi k hk]
+    by_cases c : i = k
+    · subst c; simp
+    · simp [c]
+  rw [rsum_congr h2, rsum_ite_eq]
+  simp [hi]
+
+theorem residual_orthogonal_general (V : Nat → Nat → Rat) (mu : Nat → Rat) (n m : Nat) (e : Nat → Rat)
+    (h : OrthoOrZero V n m e) (x : Nat → Rat) (i : Nat) (hi : i < m) :
+    rsum n (fun j => V j i * (x j - pcaDec V mu m (pcaEnc V mu n x) j)) = 0 := by
+  have e1 : ∀ j, V j i * (x j - pcaDec V mu m (pcaEnc V mu n x) j)
+      = V j i * (x j - mu j) - V j i * (pcaDec V mu m (pcaEnc V mu n x) j - mu j) := by intro j; ring
+  rw [rsum_congr (fun j _ => e1 j), rsum_sub, ← pcaEnc_eq, ← pcaEnc_eq, enc_dec_general V mu n m e h _ i hi]
+  rcases h.1 i hi with h0 | h1
+  · -- zero direction: the code itself is 0
+    have hz := zero_column V n m e h i hi h0
+    have : pcaEnc V mu n x i = 0 := by
+      rw [pcaEnc_eq, rsum_congr (g := fun _ => 0) (fun j hj => by rw [hz j hj]; ring)]
+      exact rsum_zero_fun _
+    rw [this]; ring
+  · rw [h1]; ring
+
+theorem best_approximation_general (V : Nat → Nat → Rat) (mu : Nat → Rat) (n m : Nat) (e : Nat → Rat)
+    (h : OrthoOrZero V n m e) (x z : Nat → Rat) :
+    rsum n (fun j => (x j - pcaDec V mu m (pcaEnc V mu n x) j) * (x j - pcaDec V mu m (pcaEnc V mu n x) j))
+      ≤ rsum n (fun j => (x j - pcaDec V mu m z j) * (x j - pcaDec V mu m z j)) := by
+  let p := pcaDec V mu m (pcaEnc V mu n x)
+  let c := pcaEnc V mu n x
+  have hdiff : ∀ j, p j - pcaDec V mu m z j = rsum m (fun i => V j i * (c i - z i)) := by
+    intro j
+    show rsum m (fun i => V j i * c i) + mu j - (rsum m (fun i => V j i * z i) + mu j) = _
+    rw [rsum_congr (f := fun i => V j i * (c i - z i)) (g := fun i => V j i * c i - V j i * z i)
+      (fun i _ => by ring), rsum_sub]; ring
+  have hcross : rsum n (fun j => (x j - p j) * (p j - pcaDec V mu m z j)) = 0 := by
+    have : ∀ j, (x j - p j) * (p j - pcaDec V mu m z j) = rsum m (fun i => (c i - z i) * (V j i * (x j - p j))) := by
+      intro j; rw [hdiff j, ← rsum_mul_left]; exact rsum_congr (fun i _ => by ring)
+    rw [rsum_congr (fun j _ => this j), rsum_rsum_comm]
+    rw [rsum_congr (g := fun _ => 0) (fun i hi => by
+      rw [rsum_mul_left, residual_orthogonal_general V mu n m e h x i hi]; ring)]
+    exact rsum_zero_fun _
+  have hsplit : rsum n (fun j => (x j - pcaDec V mu m z j) * (x j - pcaDec V mu m z j))
+      = rsum n (fun j => (x j - p j) * (x j - p j))
+        + 2 * rsum n (fun j => (x j - p j) * (p j - pcaDec V mu m z j))
+        + rsum n (fun j => (p j - pcaDec V mu m z j) * (p j - pcaDec V mu m z j)) := by
+    rw [← rsum_mul_left, ← rsum_add, ← rsum_add]
+    exact rsum_congr (fun j _ => by ring)
+  rw [hsplit, hcross]
+  have : 0 ≤ rsum n (fun j => (p j - pcaDec V mu m z j) * (p j - pcaDec V mu m z j)) :=
+    rsum_nonneg (fun j _ => mul_self_nonneg _)
+  show rsum n (fun j => (x j - p j) * (x j - p j)) ≤ _
+  linarith
+
+end SharkVerif.Trainers
